@@ -273,7 +273,7 @@ type Env struct {
 
 // NewEnv builds the run environment. Called on the main goroutine, outside
 // simulation, once per baseline and once for the simulated execution.
-func NewEnv(mode string, seed uint64, ntasks int) *Env {
+func NewEnv(mode string, seed uint64, ntasks int, pick int) *Env {
 	e := &Env{Mode: mode}
 	r := NewRng(Mix(seed, 0xe17))
 	switch mode {
@@ -289,6 +289,9 @@ func NewEnv(mode string, seed uint64, ntasks int) *Env {
 			if len(c.Samples[idx].Data) > 20 {
 				break
 			}
+		}
+		if pick >= 0 {
+			idx = c.OKSamples[pick%len(c.OKSamples)]
 		}
 		data := variantOf(c.Samples[idx].Data, r)
 		m := nas.NewMessage()
@@ -306,7 +309,11 @@ func NewEnv(mode string, seed uint64, ntasks int) *Env {
 		c := Cat
 		for k := 0; k < ntasks/2; k++ {
 			p := &Pair{}
-			a := variantOf(c.Samples[c.OKSamples[r.Intn(len(c.OKSamples))]].Data, r)
+			ai := c.OKSamples[r.Intn(len(c.OKSamples))]
+			if pick >= 0 && k == 0 {
+				ai = c.OKSamples[pick%len(c.OKSamples)]
+			}
+			a := variantOf(c.Samples[ai].Data, r)
 			b := variantOf(c.Samples[c.OKSamples[r.Intn(len(c.OKSamples))]].Data, r)
 			n := len(a)
 			if len(b) > n {
@@ -446,7 +453,15 @@ func mutateIE(v reflect.Value, r *Rng) {
 	}
 	if f := directField(v, "Buffer"); f.IsValid() && f.Kind() == reflect.Slice && f.Type().Elem().Kind() == reflect.Uint8 && f.CanSet() {
 		n := f.Len()
-		if n > 0 {
+		lf := directField(v, "Len")
+		if sb, ok := semanticBytes(r, strings.ToLower(t.Name())+" buffer"); ok && lf.IsValid() && lf.CanSet() &&
+			(lf.Kind() == reflect.Uint16 || (lf.Kind() == reflect.Uint8 && len(sb) < 256)) && len(sb) > 0 {
+			// well-formed contents of what this IE holds (variantOf checks that the message still decodes)
+			nv := reflect.MakeSlice(f.Type(), len(sb), len(sb))
+			reflect.Copy(nv, reflect.ValueOf(sb))
+			f.Set(nv)
+			lf.SetUint(uint64(len(sb)))
+		} else if n > 0 {
 			nb := r.Bytes(n)
 			reflect.Copy(f, reflect.ValueOf(nb))
 		}
